@@ -193,6 +193,47 @@ func scenC05(c *ctx) {
 			}
 		}
 	}
+	// back-to-back calls under one suite that differ in exactly one input field, and under sibling suites that differ in
+	// exactly one configuration field (same suite text): whatever is remembered per suite must not carry data over
+	for i := 0; i < c.n(20, 300); i++ {
+		cf := c.handBuilt(31, c.rng.Intn(3), 4+c.rng.Intn(7), []byte(fmt.Sprintf("OCRA-1:SIBGEN-%d", c.rng.Intn(3))))
+		base := c.admissibleInput(cf, i)
+		key := c.someKey()
+		secret := b32(key)
+		vary := func(k int) otp.OCRAInput {
+			in := base
+			switch k % 6 {
+			case 1:
+				in.Counter = W64(uint64FromB(base.Counter) + 1)
+			case 2:
+				in.Challenge = c.randBytes(len(base.Challenge))
+			case 3:
+				in.Challenge = base.Challenge[:minChal(cf.Chal)]
+			case 4:
+				in.SessionInfo = c.randBytes(c.rng.Intn(129))
+			case 5:
+				in.Timestamp = W64(uint64FromB(base.Timestamp) + 1)
+			}
+			return in
+		}
+		for k := 0; k < 12; k++ {
+			id++
+			c.rec.Emit(doGenerateOCRA(fmt.Sprintf("C05/sibin/%d/%d", i, k), secret, cfgSuiteArg(cf), vary(k)))
+		}
+		for k := 0; k < 8; k++ {
+			id++
+			sib := cf
+			switch k % 4 {
+			case 1:
+				sib.Hash = (cf.Hash + 1) % 3
+			case 2:
+				sib.Digits = 4 + (cf.Digits-4+3)%7
+			case 3:
+				sib.S = !cf.S
+			}
+			c.rec.Emit(doGenerateOCRA(fmt.Sprintf("C05/sibcfg/%d/%d", i, k), secret, cfgSuiteArg(sib), base))
+		}
+	}
 	// message lengths on both sides of the pooled buffer's 256-byte capacity
 	for _, rawLen := range []int{0, 20, 100, 110, 118, 119, 120, 121, 127, 128, 129, 200, 246, 247, 248, 400} {
 		for _, mask := range []int{2, 1 | 2, 2 | 8, 1 | 2 | 4 | 8 | 16, 1, 16, 0} {
